@@ -29,7 +29,7 @@ class Spec:
 
     def strategy(self, tier):
         o = {"p_failflag": 10, "p_csum": 20, "p_default": 50, "max_cmd_targets": 2, "p_focus": 60, "p_usermod": 35,
-             "weights": {"cmd": 40, "redo": 15, "usermodflag": 7, "mwrite": 14, "mreplace": 8, "mremove": 12, "edit": 8, "query": 8,
+             "weights": {"cmd": 40, "redo": 15, "usermodflag": 7, "msymlink": 6, "mwrite": 14, "mreplace": 8, "mremove": 12, "edit": 8, "query": 8,
                          "failflag": 3, "setdo": 3, "adddo": 2, "rmdo": 1, "rmtarget": 4, "mkpath": 1, "rmpath": 1,
                          "ext": 1, "touch": 2}}
         if tier == "thorough":
